@@ -1,4 +1,4 @@
-import ScenicModel.Model.Sampler
+import ScenicModel.Model.SamplerSpec
 import Mathlib.Tactic.Ring
 import Mathlib.Tactic.Linarith
 import Mathlib.Tactic.FieldSimp
@@ -200,24 +200,7 @@ theorem bindO_pure_right (d : Dist (Option α)) : bindO d (fun a => Dist.pure (s
 
 /-! ## the rejection loop -/
 
-/-- lift a predicate on scenes to attempt outcomes (a rejection does not satisfy it) -/
-def onSome {σ : Type} (q : σ → Bool) : Option σ → Bool
-  | some s => q s
-  | none => false
-
-def isRej {σ : Type} : Option σ → Bool
-  | some _ => false
-  | none => true
-
-/-- "scene satisfying `q` returned after exactly `k` iterations" -/
-def hit {σ : Type} (k : Nat) (q : σ → Bool) : Option (σ × Nat) → Bool
-  | some (s, j) => j == k && q s
-  | none => false
-
-/-- "scene satisfying `q` returned (after any number of iterations)" -/
-def sceneIs {σ : Type} (q : σ → Bool) : Option (σ × Nat) → Bool
-  | some (s, _) => q s
-  | none => false
+/-! (`onSome`, `isRej`, `hit`, `sceneIs`, `vectors`, `softWeight` are defined in `Model/SamplerSpec.lean`) -/
 
 /-- `1 + r + ... + r^(n-1)` -/
 def geom (r : Rat) : Nat → Rat
@@ -380,11 +363,6 @@ theorem mass_split {σ : Type} (att : Dist (Option σ)) :
     cases o <;> simp [onSome, isRej] <;> ring
 
 /-! ## activation of the soft requirements -/
-
-/-- all Boolean vectors of a given length -/
-def vectors : Nat → List (List Bool)
-  | 0 => [[]]
-  | n + 1 => (vectors n).map (true :: ·) ++ (vectors n).map (false :: ·)
 
 /-- `Π_{i active} a_i · Π_{i inactive} (1 - a_i)` with `a_i` the activation probability of requirement `i` -/
 def actWeight (cfg : Cfg) : List Rat → List Bool → Rat
